@@ -46,6 +46,9 @@ func init() {
 			{ID: "C01.h", Title: "CAS-FAIL-FATAL", Template: "T2", MinInst: 1,
 				Rule: "every return reachable from the error edge of Replace wraps errFatal",
 				Run:  c01h},
+			{ID: "C01.m", Title: "HEAD-HELPERS", Template: "T6+T1", MinInst: 2,
+				Rule: "hashTreeHead(n, r, t) returns {Tree{N: n, Hash: tlog.TreeHash(n, r)}, Time: t} only when TreeHash succeeded; the edge-tile hash reader returns, per requested index, HashFromTile of the stored edge tile of that index's level, or an error",
+				Run:  func(c *Ctx) { hHashTreeHead(c); hEdgeReader(c) }},
 			{ID: "C01.k", Title: "LOCK-CAS", Template: "T5+T8", MinInst: 10,
 				Rule: "every lock backend's Replace/Create carries its precondition and never turns a failed conditional write into success (as C05.b, C05.g): the history in the lock store can only be extended by the holder of the current checkpoint",
 				Run:  func(c *Ctx) { c05b(c); c05g(c) }},
@@ -86,6 +89,10 @@ func c01a(c *Ctx) {
 	for _, f := range pubs {
 		ups := checkpointUploads(f)
 		locks := f.CallsW(specLockRepl, specLockCrea)
+		if len(locks) == 0 && len(ups) > 0 {
+			c.Bad(f.Name, ups[0].Pos(), f.Name+" writes the \"checkpoint\" object without committing anything to the lock store in the same function: a publication outside the compare-and-swap, which a stale or concurrently starting instance can use to overwrite a newer published checkpoint")
+			continue
+		}
 		if !c.requireGate(f.Name, f, locks, OutNil, ups, "checkpoint upload after lock commit") {
 			continue
 		}
